@@ -10,6 +10,7 @@ use std::io::{BufRead, BufReader};
 use std::os::unix::process::CommandExt;
 use std::path::{Path, PathBuf};
 use std::process::{Command, Stdio};
+use std::sync::atomic::{AtomicU64, Ordering::SeqCst};
 use std::time::{Duration, Instant};
 
 fn arg<'a>(args: &'a [String], name: &str) -> Option<&'a str> {
@@ -32,20 +33,47 @@ fn shim_path() -> PathBuf {
     verif_root().join("shim/getrandom_shim.so")
 }
 
-/// A command that runs this binary with the constant-`getrandom` shim preloaded and ASLR off.
-fn self_cmd() -> Command {
+/// The CPUs this process may run on.
+fn allowed_cpus() -> Vec<usize> {
+    // SAFETY: plain libc calls on a zeroed cpu_set_t
+    unsafe {
+        let mut set: libc::cpu_set_t = std::mem::zeroed();
+        if libc::sched_getaffinity(0, std::mem::size_of::<libc::cpu_set_t>(), &mut set) != 0 {
+            return Vec::new();
+        }
+        (0..libc::CPU_SETSIZE as usize).filter(|&i| libc::CPU_ISSET(i, &set)).collect()
+    }
+}
+
+/// A command that runs this binary with the constant-`getrandom` shim preloaded and ASLR off,
+/// pinned to one CPU (the `slot`-th of the allowed ones). Only one simulated thread of a worker
+/// runs at any time, so one CPU loses nothing; every hand-over between simulated threads then is
+/// a context switch on that CPU instead of a wake-up across CPUs - on a virtual machine whose
+/// CPUs are being stolen by the host the latter costs milliseconds (measured here: thread
+/// creation 21 us pinned, 1.8 ms unpinned).
+fn self_cmd_on(slot: usize) -> Command {
     let exe = std::env::current_exe().expect("current_exe");
     let mut c = Command::new(exe);
     c.env("LD_PRELOAD", shim_path());
     c.env_remove("RUST_BACKTRACE");
-    // SAFETY: personality() is async-signal-safe
+    let cpus = allowed_cpus();
+    let cpu = if cpus.is_empty() || std::env::var_os("VERIF_NO_PIN").is_some() { None } else { Some(cpus[slot % cpus.len()]) };
+    // SAFETY: personality() and sched_setaffinity() are async-signal-safe
     unsafe {
-        c.pre_exec(|| {
+        c.pre_exec(move || {
             libc::personality(libc::ADDR_NO_RANDOMIZE as libc::c_ulong);
+            if let Some(cpu) = cpu {
+                let mut set: libc::cpu_set_t = std::mem::zeroed();
+                libc::CPU_SET(cpu, &mut set);
+                libc::sched_setaffinity(0, std::mem::size_of::<libc::cpu_set_t>(), &set);
+            }
             Ok(())
         });
     }
     c
+}
+fn self_cmd() -> Command {
+    self_cmd_on(0)
 }
 
 struct Tier {
@@ -79,14 +107,164 @@ struct Agg {
     workers_done: u64,
 }
 
+/// Runs seen so far by the reader threads of `run_workers` (for the controller of adaptive runs).
+static RUNS_SEEN: AtomicU64 = AtomicU64::new(0);
+/// Where the adaptive controller settled (0 = not adaptive).
+pub static SETTLED_WORKERS: AtomicU64 = AtomicU64::new(0);
+
+/// Control block shared with the workers of an adaptive run (a file mapped MAP_SHARED):
+/// word 0 = next block to claim, word 1 = how many workers may be active.
+pub struct Ctl {
+    ptr: *mut AtomicU64,
+    pub path: PathBuf,
+}
+// SAFETY: the mapping stays valid for the life of the process; all access is atomic
+unsafe impl Send for Ctl {}
+unsafe impl Sync for Ctl {}
+impl Ctl {
+    pub fn open(path: &std::path::Path, create: bool) -> Result<Ctl, String> {
+        use std::os::fd::AsRawFd;
+        let f = std::fs::OpenOptions::new().read(true).write(true).create(create).truncate(create).open(path).map_err(|e| format!("{}: {e}", path.display()))?;
+        if create {
+            f.set_len(4096).map_err(|e| e.to_string())?;
+        }
+        // SAFETY: maps a regular file of one page
+        let p = unsafe { libc::mmap(std::ptr::null_mut(), 4096, libc::PROT_READ | libc::PROT_WRITE, libc::MAP_SHARED, f.as_raw_fd(), 0) };
+        if p == libc::MAP_FAILED {
+            return Err("mmap of the control block failed".into());
+        }
+        Ok(Ctl { ptr: p as *mut AtomicU64, path: path.to_path_buf() })
+    }
+    fn word(&self, i: usize) -> &AtomicU64 {
+        // SAFETY: inside the mapped page
+        unsafe { &*self.ptr.add(i) }
+    }
+    pub fn claim_block(&self) -> u64 {
+        self.word(0).fetch_add(1, SeqCst)
+    }
+    pub fn next_block(&self) -> u64 {
+        self.word(0).load(SeqCst)
+    }
+    pub fn limit(&self) -> u64 {
+        self.word(1).load(SeqCst)
+    }
+    pub fn set_limit(&self, n: u64) {
+        self.word(1).store(n, SeqCst)
+    }
+}
+
+/// Adaptive runs: how many of the started workers are active is decided while the run proceeds.
+/// Process creation, thread creation and page faults do not scale across processes on every
+/// virtual machine (measured on this one, on a bad day: 4 pinned workers complete 3 000 list runs
+/// per second, 16 complete 700; on a good day 16 complete 20 000). The controller measures the
+/// rate of completed runs at 16, 8, 4 and 2 active workers for a couple of seconds each, tries the
+/// neighbours of the best, settles there, and repeats that now and then in long runs. Workers
+/// claim blocks of run indices from a shared counter, so the explored runs are a prefix of the
+/// index space whatever the controller does; run i is the same execution whoever executes it.
+fn controller(ctl: std::sync::Arc<Ctl>, stop: std::sync::Arc<std::sync::atomic::AtomicBool>, max_w: u64, secs: u64) {
+    use std::sync::atomic::Ordering::SeqCst;
+    let nap = |ms: u64| -> bool {
+        let t = Instant::now();
+        while (t.elapsed().as_millis() as u64) < ms {
+            if stop.load(SeqCst) {
+                return false;
+            }
+            std::thread::sleep(std::time::Duration::from_millis(25));
+        }
+        true
+    };
+    // warm-up of the workers: wait for the first completed block
+    let t0 = Instant::now();
+    while RUNS_SEEN.load(SeqCst) == 0 && t0.elapsed().as_secs() < 30 {
+        if !nap(50) {
+            return;
+        }
+    }
+    let dur = (secs * 1000 / 30).clamp(1500, 4000);
+    let measure = |n: u64, settle: u64| -> Option<f64> {
+        ctl.set_limit(n);
+        if !nap(settle) {
+            return None;
+        }
+        let (r0, t) = (RUNS_SEEN.load(SeqCst), Instant::now());
+        if !nap(dur) {
+            return None;
+        }
+        Some((RUNS_SEEN.load(SeqCst) - r0) as f64 / t.elapsed().as_secs_f64())
+    };
+    loop {
+        // upwards from two workers, doubling while the rate still grows: the collapsed region (where
+        // a block of runs takes seconds) is entered at most once, and left again at once
+        let mut tried: Vec<(u64, f64)> = Vec::new();
+        let mut n = 2u64.min(max_w);
+        loop {
+            match measure(n, 300) {
+                Some(r) => tried.push((n, r)),
+                None => return,
+            }
+            let k = tried.len();
+            if n >= max_w || (k >= 2 && tried[k - 1].1 < tried[k - 2].1 * 1.1) {
+                break;
+            }
+            n = (n * 2).min(max_w);
+        }
+        let best = |v: &[(u64, f64)]| v.iter().cloned().fold((1u64, -1.0f64), |a, b| if b.1 > a.1 { b } else { a });
+        let b = best(&tried).0;
+        // back below the best before looking at its neighbours (blocks started by workers that are
+        // now paused must drain first)
+        for cand in [(b * 3 / 4).max(1), (b * 3 / 2).min(max_w)] {
+            if !tried.iter().any(|t| t.0 == cand) {
+                match measure(cand, 1500) {
+                    Some(r) => tried.push((cand, r)),
+                    None => return,
+                }
+            }
+        }
+        let b = best(&tried).0;
+        ctl.set_limit(b);
+        SETTLED_WORKERS.store(b, SeqCst);
+        *CONTROLLER_LOG.lock().unwrap() = tried.iter().map(|(n, r)| format!("{n}: {r:.0}/s")).collect::<Vec<_>>().join(", ");
+        // long runs: measure again every two minutes
+        if !nap(120_000) {
+            return;
+        }
+    }
+}
+
+static CONTROLLER_LOG: std::sync::Mutex<String> = std::sync::Mutex::new(String::new());
+
 fn run_workers(prop: &str, thorough: bool, seed: u64, runs: u64, secs: u64, workers: u64, emit_runs: bool, samples: u64) -> Result<Agg, String> {
+    run_workers_x(prop, thorough, seed, runs, secs, workers, emit_runs, samples, false)
+}
+
+#[allow(clippy::too_many_arguments)]
+fn run_workers_x(prop: &str, thorough: bool, seed: u64, runs: u64, secs: u64, workers: u64, emit_runs: bool, samples: u64, adaptive: bool) -> Result<Agg, String> {
     if !shim_path().exists() {
         return Err(format!("getrandom shim {} is missing (run setup)", shim_path().display()));
     }
+    RUNS_SEEN.store(0, SeqCst);
+    let ctl = if adaptive {
+        let path = verif_root().join(format!(".work/ctl-{}.bin", std::process::id()));
+        let c = std::sync::Arc::new(Ctl::open(&path, true)?);
+        c.set_limit(2u64.min(workers));
+        Some(c)
+    } else {
+        None
+    };
+    let stop = std::sync::Arc::new(std::sync::atomic::AtomicBool::new(false));
+    let ctl_thread = ctl.clone().map(|c| {
+        let stop = stop.clone();
+        std::thread::spawn(move || controller(c, stop, workers, secs))
+    });
     let mut children = Vec::new();
     for w in 0..workers {
-        let mut c = self_cmd();
-        c.arg("worker")
+        let mut c = self_cmd_on(w as usize);
+        if let Some(ctl) = &ctl {
+            c.arg("worker").arg("--ctl").arg(&ctl.path);
+        } else {
+            c.arg("worker");
+        }
+        c
             .args(["--prop", prop, "--tier", if thorough { "thorough" } else { "quick" }])
             .args(["--seed", &seed.to_string(), "--wid", &w.to_string(), "--workers", &workers.to_string()])
             .args(["--runs", &runs.to_string(), "--deadline-ms", &(secs * 1000).to_string()])
@@ -108,6 +286,7 @@ fn run_workers(prop: &str, thorough: bool, seed: u64, runs: u64, secs: u64, work
                 match v["t"].as_str() {
                     Some("blk") => {
                         a.runs += v["n"].as_u64().unwrap_or(0);
+                        RUNS_SEEN.fetch_add(v["n"].as_u64().unwrap_or(0), SeqCst);
                         if let Some(m) = v["counters"].as_object() {
                             for (k, x) in m {
                                 *a.counters.entry(k.clone()).or_insert(0) += x.as_u64().unwrap_or(0);
@@ -158,6 +337,13 @@ fn run_workers(prop: &str, thorough: bool, seed: u64, runs: u64, secs: u64, work
         total.run_hashes.extend(a.run_hashes);
         total.deadline_hit |= a.deadline_hit;
         total.workers_done += a.workers_done;
+    }
+    stop.store(true, SeqCst);
+    if let Some(t) = ctl_thread {
+        let _ = t.join();
+    }
+    if let Some(c) = &ctl {
+        let _ = std::fs::remove_file(&c.path);
     }
     if total.workers_done != workers {
         total.harness.push(json!({"detail": format!("only {} of {} workers finished", total.workers_done, workers)}));
@@ -246,8 +432,8 @@ pub struct ExecPool {
 impl ExecPool {
     pub fn new(n: usize) -> Result<ExecPool, String> {
         let mut servers = Vec::new();
-        for _ in 0..n {
-            let mut c = self_cmd();
+        for k in 0..n {
+            let mut c = self_cmd_on(k);
             c.arg("exec-server").stdin(Stdio::piped()).stdout(Stdio::piped()).stderr(Stdio::inherit());
             let mut ch = c.spawn().map_err(|e| e.to_string())?;
             let i = ch.stdin.take().unwrap();
@@ -528,13 +714,15 @@ pub fn cmd_run(args: &[String]) -> i32 {
     let t = tier_for(&prop, thorough);
     let runs: u64 = arg(args, "--runs").and_then(|s| s.parse().ok()).unwrap_or(t.runs);
     let secs: u64 = arg(args, "--secs").and_then(|s| s.parse().ok()).unwrap_or(t.secs);
-    let workers: u64 = arg(args, "--workers").and_then(|s| s.parse().ok()).unwrap_or(16);
+    let fixed_workers: Option<u64> = arg(args, "--workers").and_then(|s| s.parse().ok());
+    let adaptive = fixed_workers.is_none();
+    let workers: u64 = fixed_workers.unwrap_or_else(|| (allowed_cpus().len() as u64).clamp(1, 16));
     let evidence = arg(args, "--evidence").map(PathBuf::from).unwrap_or_else(|| verif_root().join(format!("evidence/{prop}.json")));
     let use_known = !args.iter().any(|a| a == "--no-known");
     let t0 = Instant::now();
     println!("verif-sim: property={prop} tier={} VERIF_SEED={seed} runs<={runs} secs<={secs} workers={workers}", if thorough { "thorough" } else { "quick" });
 
-    let agg = match run_workers(&prop, thorough, seed, runs, secs, workers, false, 3) {
+    let agg = match run_workers_x(&prop, thorough, seed, runs, secs, workers, false, 3, adaptive) {
         Ok(a) => a,
         Err(e) => {
             println!("HARNESS-ERROR {e}");
@@ -542,6 +730,9 @@ pub fn cmd_run(args: &[String]) -> i32 {
         }
     };
     let search_wall = t0.elapsed().as_secs_f64();
+    if adaptive {
+        println!("workers: {workers} started, the controller settled at {} active (measured {})", SETTLED_WORKERS.load(SeqCst), CONTROLLER_LOG.lock().unwrap());
+    }
     println!(
         "explored {} runs in {:.1}s ({} distinct non-trivial), {} raw violation report(s), {} harness report(s)",
         agg.runs,
@@ -733,6 +924,7 @@ pub fn cmd_run(args: &[String]) -> i32 {
             "counters": c,
             "components": components(&prop),
             "workers": workers,
+            "workers_active": if adaptive { json!({"settled_at": SETTLED_WORKERS.load(SeqCst), "measured_runs_per_second": CONTROLLER_LOG.lock().unwrap().clone(), "note": "process creation and page faults do not scale across processes on every VM: the number of active workers is chosen by measurement while the run proceeds; workers claim run indices from a shared counter, so the explored set is a prefix of the index space and every run is the same execution whoever executes it"}) } else { json!(workers) },
             "stopped_by_deadline": agg.deadline_hit,
             "safe_rust_probes": probe_report,
             "known_findings_seen": known_hits.iter().map(|(k, (_, n))| json!({"id": k, "reports": n})).collect::<Vec<_>>(),
